@@ -376,3 +376,46 @@ Proof.
   clear Hroots Hlen Hne El. induction Hw as [|c v cs vs Hcv Hrest IH]; [constructor|].
   cbn [combine map fst snd]. constructor; [|exact IH]. apply slice_comp_ok.
 Qed.
+
+(* ---------- no spurious errors ---------- *)
+Lemma all_some_ok {A B} (f : A -> option B) l : (forall x, In x l -> f x <> None) -> all_some (map f l) <> None.
+Proof.
+  induction l as [|x l IH]; intros H; cbn [map all_some]; [discriminate|].
+  destruct (f x) eqn:E; [|exfalso; apply (H x); [left; reflexivity|exact E]].
+  assert (H' : all_some (map f l) <> None) by (apply IH; intros y Hy; apply H; right; exact Hy).
+  destruct (all_some (map f l)); [discriminate|congruence].
+Qed.
+
+Lemma wslice_nat_ok w a b : a < b <= length w -> wslice w (Some (Z.of_nat a)) (Some (Z.of_nat b)) <> None.
+Proof.
+  intros H. unfold wslice. fold (sl w a b). rewrite sl_inrange by lia.
+  destruct (firstn (b - a) (skipn a w)) eqn:E; [|discriminate].
+  apply (f_equal (@length _)) in E. rewrite firstn_length, skipn_length in E. cbn [length] in E. lia.
+Qed.
+
+Theorem chop_ok : forall w ws,
+  sum_nat ws = length w -> (forall i, i < length ws -> 1 <= nth i ws 0) -> chop w ws <> None.
+Proof.
+  intros w ws Hs Hpos. unfold chop. rewrite Hs, Nat.eqb_refl. cbn [negb].
+  assert (Hc : combine (map (fun i => sum_nat (skipn (S i) ws)) (seq 0 (length ws)))
+                       (map (fun i => sum_nat (skipn i ws)) (seq 0 (length ws)))
+               = map (fun i => (sum_nat (skipn (S i) ws), sum_nat (skipn i ws))) (seq 0 (length ws))).
+  { generalize (seq 0 (length ws)). intros l. induction l as [|x l IH]; cbn [map combine]; [reflexivity|].
+    f_equal. exact IH. }
+  rewrite Hc, map_map. apply all_some_ok. intros i Hi. apply in_seq in Hi. cbn [fst snd].
+  apply wslice_nat_ok.
+  pose proof (sum_skipn_S ws i ltac:(lia)). pose proof (sum_skipn_le ws i). specialize (Hpos i ltac:(lia)). lia.
+Qed.
+
+Theorem partition_wire_ok : forall w size,
+  1 <= size -> Nat.modulo (length w) size = 0 -> partition_wire w size <> None.
+Proof.
+  intros w size Hs Hm. unfold partition_wire.
+  replace (Nat.eqb size 0) with false by (symmetry; apply Nat.eqb_neq; lia).
+  rewrite Hm. cbn [Nat.eqb negb].
+  set (m := length w / size).
+  assert (Hlen : length w = m * size).
+  { unfold m. pose proof (Nat.div_mod (length w) size ltac:(lia)). lia. }
+  rewrite (range_step_spec m) by lia. rewrite map_map. apply all_some_ok.
+  intros k Hk. apply in_seq in Hk. cbn [Nat.add]. apply wslice_nat_ok. nia.
+Qed.
